@@ -661,7 +661,10 @@ func (m *cidMgr) add(fr cidFrame, what string) {
 				res.Shape("N-conflict")
 				return
 			}
-			res.Fail("conflicting NEW_CONNECTION_ID rejected with a plain error instead of a PROTOCOL_VIOLATION transport error (sent as INTERNAL_ERROR)", "seq %d: %v", fr.seq, err)
+			// C16 does not state the error code: any error is fine as long as the frame is not accepted
+			res.Note("conflicting NEW_CONNECTION_ID rejected with a plain error instead of a PROTOCOL_VIOLATION transport error (sent as INTERNAL_ERROR)")
+			res.Probe("conflict-rejected-with-plain-error")
+			res.Shape("N-conflict")
 		default:
 			res.Fail("valid NEW_CONNECTION_ID rejected", "seq %d rpt %d: %v", fr.seq, fr.rpt, err)
 		}
@@ -672,12 +675,17 @@ func (m *cidMgr) add(fr cidFrame, what string) {
 		res.Fail("conflicting NEW_CONNECTION_ID for a stored sequence number accepted", "seq %d", fr.seq)
 		return
 	}
+	if np := m.pathsInUse(); over && np > 0 && count-np <= m.limit {
+		// over-acceptance is not part of C16: the excess explained by IDs in use for path
+		// probing is only noted; the history and all other oracles go on
+		res.Note("more unretired connection IDs than the advertised limit accepted (IDs in use for path probing are not counted)")
+		res.Probe("limit-exceeded-by-path-probing-ids-accepted")
+		over = false
+	}
 	if over {
 		m.ended = true
 		np := m.pathsInUse()
 		switch {
-		case np > 0 && count-np <= m.limit:
-			res.Fail("more unretired connection IDs than the advertised limit accepted (IDs in use for path probing are not counted)", "unretired %d of which %d for path probing, advertised limit %d", count, np, m.limit)
 		case m.limit != def && count <= def:
 			res.Fail("more unretired connection IDs than the advertised limit accepted (SetConnectionIDLimit ignored: the library default is enforced)", "unretired %d, advertised limit %d, default %d", count, m.limit, def)
 		case np > 0 && m.limit != def && count-np <= def:
